@@ -135,7 +135,6 @@ func (c *Ctx) errDiscipline(fn *ssa.Function, match func(*core.Call) bool) (find
 	return findings, npaths, nil
 }
 
-
 // errDisciplineDeep is errDiscipline made compositional: a static call in fn to a declared function of fn's package
 // that makes matched calls (transitively) is itself a matched call of fn if it returns an error, and that helper is
 // checked the same way in turn (depth levels). A helper that makes matched calls but returns no error cannot report
